@@ -483,6 +483,12 @@ def _count_job_creations():
             rs._verif_job_count[0] += 1
             orig_init(self, *a, **kw)
         rs.Job.__init__ = init
+        orig_collapse = rs.Job.collapse
+
+        def collapse(self, other_job):
+            self._verif_collapsed = True      # harness-side mark: this job was deduplicated into a pending twin
+            return orig_collapse(self, other_job)
+        rs.Job.collapse = collapse
     return rs._verif_job_count
 
 
